@@ -3,9 +3,11 @@ pub mod c02;
 pub mod c04;
 pub mod c06;
 pub mod c07;
+pub mod c08;
 pub mod opt_common;
 pub mod c09;
 pub mod c10;
+pub mod c11;
 pub mod c13;
 pub mod c14;
 pub mod c15;
@@ -23,8 +25,10 @@ pub fn dispatch(ctx: &mut Ctx) -> bool {
         "C04" => c04::run(ctx),
         "C06" => c06::run(ctx),
         "C07" => c07::run(ctx),
+        "C08" => c08::run(ctx),
         "C09" => c09::run(ctx),
         "C10" => c10::run(ctx),
+        "C11" => c11::run(ctx),
         "C13" => c13::run(ctx),
         "C14" => c14::run(ctx),
         "C15" => c15::run(ctx),
